@@ -194,7 +194,14 @@ func (c *c11Checker) After(w *World, ev *Event) []Failure {
 			ser := sh.SP.String()
 			back := model.ParseUrlencodedRaw(ser)
 			if !pairsEqual(back, real) {
-				fs = append(fs, fail("C11.codec.roundtrip", "handle", fmt.Sprintf("s%d", sid), "list", pairsString(real), "serialized", q(ser), "parsed-back", pairsString(back), "pairs", pairsJoin(real)))
+				// For the known-finding predicate: is the deviation exactly what leaving '%' unescaped
+				// explains (every name/value comes back percent-decoded once, nothing else differs)?
+				dec := make([]Pair, len(real))
+				for i, p := range real {
+					dec[i] = Pair{Name: string(model.PercentDecode(p.Name)), Value: string(model.PercentDecode(p.Value))}
+				}
+				fs = append(fs, fail("C11.codec.roundtrip", "handle", fmt.Sprintf("s%d", sid), "list", pairsString(real), "serialized", q(ser), "parsed-back", pairsString(back),
+					"explained-by-unescaped-percent", fmt.Sprint(pairsEqual(back, dec))))
 			} else if r, err := url.Parse(w.Cur[sh.Of].Href); err == nil && w.U[sh.Of].QW == 1 {
 				// and through the whole URL: url.Parse(href).SearchParams()
 				back2 := readList(r.SearchParams())
